@@ -20,6 +20,7 @@ KINDS = {
 }
 
 
+REACHED_STATE_TEMPLATES = ('C02', 'C03', 'C04', 'C07', 'C08', 'C09', 'C12', 'C17')
 UNIFORM_MARKERS_IN_QUICK = ('C03', 'C05', 'C09', 'C17')
 INV_ESTABLISHED_BY = {'C02': ['CreateAsk', 'CreateBid', 'ApproveAsk'], 'C03': ['CreateAsk', 'CreateBid', 'ApproveAsk'], 'C04': ['CreateAsk', 'CreateBid', 'ApproveAsk'],
                       'C09': ['CreateAsk', 'ApproveAsk'], 'C10': []}
@@ -62,6 +63,23 @@ def run(pid, tier, seed, jobs=None, only=None):
             # bounded model checking from the empty book along accepted-request templates (independent of Inv)
             specs = specs + ST.history_templates(tier)
             extra = extra + ['history templates: every denomination an ordinary coin; depth <= %d accepted requests from the empty book' % max(len(h['steps']) for h in ST.history_templates(tier))]
+        if pid == 'C05' and not only:
+            # the same statement over reachable states only: role lists replaced by accepted configuration changes, then privileged requests
+            specs = specs + ST.history_templates(tier, 'C05')
+            extra = extra + ['role histories from the empty store: instantiate (1 executor, 1 approver), <= 4 accepted requests, every denomination an ordinary coin']
+        if pid == 'C10' and not only:
+            # "the contract emits no other kind of message": the entry points that are not order operations are held to the same rule
+            from . import entry as EN_
+            mig = [dict(s_, _opts={'builder': 'build_migrate', 'runner': 'run_migrate'}) for s_ in EN_.specs_migrate(tier)]
+            ins = [dict(s_, _opts={'builder': 'build_instantiate', 'runner': 'run_instantiate'}) for s_ in EN_.specs_instantiate(tier)[:8]]
+            mod = [s_ for s_ in ST.specs_for(['ModifyContract'], tier) if sum(f for _, f in s_['mod']) in (0, 8)][:6]
+            specs = specs + mig + ins + mod
+            extra = extra + ['also every response of migrate (%d shapes), instantiate (%d shapes) and configuration change (%d shapes)' % (len(mig), len(ins), len(mod))]
+        if pid in REACHED_STATE_TEMPLATES and not only:
+            hs = ST.history_templates(tier, pid)
+            specs = specs + hs
+            extra = extra + ['reached-state templates (%d): the same obligations on the last request of histories grown from the empty store by instantiate and <= %d accepted '
+                             'requests (1 executor, 1 approver, every denomination an ordinary coin); no state invariant assumed there' % (len(hs), max(len(h['steps']) for h in hs) - 1)]
         return R.run_check(pid, tier, seed, specs, jobs=jobs, extra_assumptions=extra)
     if pid == 'C06':
         # exits from an arbitrary Inv book + preservation of Inv by every request kind (reduced match shapes: Inv does not depend on the mechanism)
@@ -89,7 +107,9 @@ def run(pid, tier, seed, jobs=None, only=None):
             rc = kani_second_opinion(pid, rc)
         return rc
     if pid == 'C16':
-        return R.run_check(pid, tier, seed, EN.specs_query(tier), opts={'builder': 'build_query', 'runner': 'run_query', 'extra': 'then_cancel'}, jobs=jobs)
+        hs = ST.history_templates(tier, pid)
+        return R.run_check(pid, tier, seed, EN.specs_query(tier) + hs, opts={'builder': 'build_query', 'runner': 'run_query', 'extra': 'then_cancel'}, jobs=jobs,
+                           extra_assumptions=['reached-state templates (%d): queries issued after histories grown from the empty store (instantiate, <= 3 accepted requests)' % len(hs)])
     print('unknown or not-applicable property ' + pid)
     return 2
 
